@@ -199,6 +199,12 @@ def gen_same(rng, tier):
     case = dict(stream="same", method=method, kind=kind, shape=shape, params=fam.gen_fquad(rng, ncls, dim),
                 xs=[fam.dyadic(rng, dim) for _ in range(n)], ts=fam.gen_targets(rng, n, ncls), wrappings=wr,
                 bs=rng.choice([1, 2, 3, 5, 7, None]))
+    if rng.random() < 0.3:
+        # a user-supplied operator (callable): every wrapping that is itself callable must be explained through it
+        case["op"] = "custom_sq"
+        wr = [w for w in wr if w in ("keras", "tfmod", "numpy", "torch", "torch_first")]
+        wr += [w for w in ("keras", "numpy") if w not in wr]        # at least one TensorFlow and one NumPy wrapping
+        case["wrappings"] = wr
     case["eager"] = bool(any(w.startswith("torch") for w in wr) or rng.random() < 0.25)
     case["late"] = any(w.startswith("torch") for w in wr) and rng.random() < 0.4
     if method == "Occlusion":
@@ -233,6 +239,10 @@ def generate(rng, tier):
         # with the opposite channel convention (a decoy): which wrapper an explainer holds must not depend on it
         c["decoy"] = len(c["shape"]) == 3 and rng.random() < 0.5
         cases.append(c)
+    # detection is about Conv2d ONLY: modules whose only convolutions are of another kind, detection left to the wrapper
+    for tree in (["Conv1d"], ["Conv3d", "ReLU"], [["Conv1d", "ReLU"], "Flatten", "Linear"], ["ConvTranspose2d"],
+                 [["Conv1d"], ["Conv2d"]]):
+        cases.append(dict(stream="ctor", tree=tree, request=None))
     for _ in range(40 * k):
         cases.append(gen_ctor(rng, tier))
     for _ in range(35 * k):
@@ -561,10 +571,26 @@ def build_wrapping(name, case):
     return tw, before
 
 
+def custom_sq_operator(model, inputs, targets):
+    import tensorflow as tf
+    return tf.reduce_sum(tf.cast(model(inputs), tf.float32) ** 2 * targets, axis=-1)
+
+
 def same_run(model, case, x, t):
     from xplique import attributions as A
     from xplique import metrics as M
     m, bs = case["method"], case["bs"]
+    if case.get("op"):
+        import functools
+
+        class _WithOp:
+            """namespace whose classes are the xplique ones with operator= pre-filled"""
+            def __init__(self, ns):
+                self.ns = ns
+
+            def __getattr__(self, name):
+                return functools.partial(getattr(self.ns, name), operator=custom_sq_operator)
+        A, M = _WithOp(A), _WithOp(M)
     conv = (lambda a: tuple(a) if isinstance(a, list) else a)
     if m == "Occlusion":
         return A.Occlusion(model, batch_size=bs, patch_size=conv(case["patch"]), patch_stride=conv(case["stride"])).explain(x, t)
@@ -744,7 +770,7 @@ def coq_term(case, res):
     cmp_ = "c11_close" if case["method"] in ("Rise", "Sobol", "Hsic") else "qlist_eqb"
     ref = core.cqlist(vals[0])
     parts = pre + [f"{cmp_} {ref} {core.cqlist(v)}" for v in vals[1:]]
-    if case["method"] == "Occlusion":
+    if case["method"] == "Occlusion" and not case.get("op"):     # (with a custom operator: wrappings against each other only)
         sh = case["shape"]
         if case["kind"] == "tab":
             g = f"(Tab {sh[0]} {case['patch']} {case['stride']})"
